@@ -601,6 +601,32 @@ var DeepFamilies = []DeepFamily{
 	}},
 	{"open-brackets-each-with-text", func(n int) []byte { return []byte(rep("[a *b ", capN(n, 2000)) + "[c](u) *d* [e](v) f* g") }},
 	{"open-parens-in-destination-then-links", func(n int) []byte { return []byte("[a](" + rep("(", capN(n, 3000)) + " b *c [d](e) *f [g](h) i") }},
+	// a link candidate whose text nests n containers (images, emphasis, both) with an inner link at the bottom, each container
+	// followed by a sibling: whatever walks the link text to decide "links may not contain links" must get all the way down
+	{"link-around-nested-images-with-inner-link", func(n int) []byte {
+		n = capN(n, 300)
+		// the inner link sits after k of the n containers have closed again: at the bottom, one level up, half-way, at the top
+		k := []int{0, 1, n / 2, n - 1}[n%4]
+		if k < 0 {
+			k = 0
+		}
+		return []byte("[" + rep("![t ", n) + "x" + rep(" y](u)", k) + " [inner](v)" + rep(" y](u)", n-k) + " z](w)")
+	}},
+	{"link-around-nested-emphasis-with-inner-link", func(n int) []byte {
+		n = capN(n, 300)
+		k := []int{1, n / 2, 0, n - 1}[n%4]
+		if k < 0 {
+			k = 0
+		}
+		if k > n {
+			k = n
+		}
+		return []byte("[o " + rep("*a ", n) + "x" + rep(" b*", k) + " [inner](v)" + rep(" b*", n-k) + " z][r]\n\n[r]: /w")
+	}},
+	{"link-around-nested-images-and-emphasis-with-inner-link", func(n int) []byte {
+		n = capN(n, 200)
+		return []byte("[" + rep("![t *e ", n) + "[inner](v) <http://x.y>" + rep(" f* y](u)", n) + "](w)")
+	}},
 	{"emphasis-run-length", func(n int) []byte {
 		return []byte(rep("*", n) + "a" + rep("*", n) + " " + rep("_", n) + "b" + rep("_", n))
 	}},
